@@ -242,6 +242,12 @@ class CFG:
             else:
                 out.append((n, polarity))
             return out
+        # a != b   ==   not (a == b): keep one spelling so that the two tests correlate
+        if (k == "BinaryOperator" and n.get("op") == "!=") or (k == "CXXOperatorCallExpr" and n.get("op") == "!=" and len(c) == 3):
+            eqn = dict(n)
+            eqn["op"] = "=="
+            out.append((eqn, not polarity))
+            return out
         out.append((n, polarity))
         return out
 
@@ -304,6 +310,30 @@ class CFG:
                         w.add("f" + render(t))
             written[b.id] = w
 
+        # whole-condition facts: for a statement S with condition E built from && / ||, the CFG splits E over several
+        # blocks; at S's then-target E holds as a whole and at its else-target it fails as a whole.
+        extra = {}
+        for b in self.blocks.values():
+            if b.term is None or b.tk not in ("IfStmt", "WhileStmt", "ForStmt", "DoStmt", "ConditionalOperator") or len(b.succs) != 2:
+                continue
+            st = nodes.get(b.term)
+            if st is None:
+                continue
+            ck = kids(st)
+            E = ck[1] if b.tk in ("ForStmt", "DoStmt") and len(ck) > 1 else (ck[0] if ck else None)
+            if E is None:
+                continue
+            Es = strip(E)
+            if not (Es["k"] == "BinaryOperator" and Es.get("op") in ("&&", "||")):
+                continue
+            inner = {x["i"] for x in walk(E)}
+            condblocks = {bb.id for bb in self.blocks.values() if bb.term == b.term or (bb.term in inner)}
+            for tgt, pol in ((b.succs[0], True), (b.succs[1], False)):
+                if tgt is None or tgt in condblocks:
+                    continue
+                if all(p_ in condblocks for p_ in self.blocks[tgt].preds):
+                    extra.setdefault(tgt, []).append(key((Es, pol)))
+
         order = [b for b in self.blocks if b in self.reach]
         IN = {b: None for b in order}   # None = top (all facts)
         IN[self.entry] = set()
@@ -339,6 +369,8 @@ class CFG:
                     acc = s if acc is None else (acc & s)
                 if acc is None:
                     continue
+                for kx in extra.get(b, ()):
+                    acc.add(kx)
                 if IN[b] is None or acc != IN[b]:
                     IN[b] = acc
                     changed = True
@@ -392,6 +424,70 @@ class CFG:
             if k in self._factnode:
                 res.add(k)
         return res
+
+    # ---- path search that respects correlated branch conditions -----------------
+    def find_feasible_path(self, start, is_target, is_blocker, start_after=True, max_states=20000):
+        """like find_path, but carries the branch facts taken along the path (killed by writes to what they mention)
+        and never takes an edge whose fact contradicts one already held. is_target may be 'exit'."""
+        if not hasattr(self, "_edge_facts"):
+            self.facts_in()
+        sb, si = start
+        first = si + 1 if start_after else si
+        seen = set()
+        work = [(sb, first, frozenset(), [sb])]
+        states = 0
+        while work:
+            b, i0, held, path = work.pop()
+            states += 1
+            if states > max_states:
+                return path  # give up conservatively: report a path
+            blk = self.blocks[b]
+            blocked = False
+            cur = set(held)
+            for idx in range(i0, len(blk.elems)):
+                e = blk.elems[idx]
+                if is_target != "exit" and is_target(b, idx, e):
+                    return path
+                if is_blocker(b, idx, e):
+                    blocked = True
+                    break
+                n = self.fn.nodes.get(e) if isinstance(e, int) else None
+                if n is not None:
+                    tgt = write_target(n)
+                    if tgt is not None:
+                        t = strip(tgt)
+                        tok = None
+                        if t["k"] == "DeclRefExpr":
+                            tok = "d%d" % t["d"]
+                        elif t["k"] == "MemberExpr":
+                            tok = "f" + render(t)
+                        if tok:
+                            cur = {k for k in cur if tok not in self._mention.get(k, ())}
+            if blocked:
+                continue
+            if is_target == "exit" and b == self.exit:
+                return path
+            for s in blk.succs:
+                if s is None:
+                    continue
+                nf = set(cur)
+                ok = True
+                for (n, pol) in self._edge_facts.get((b, s), ()):
+                    k = (render(n), pol)
+                    if k not in self._mention:
+                        continue
+                    if (k[0], not pol) in nf:
+                        ok = False
+                        break
+                    nf.add(k)
+                if not ok:
+                    continue
+                st = (s, frozenset(nf))
+                if st in seen:
+                    continue
+                seen.add(st)
+                work.append((s, 0, frozenset(nf), path + [s]))
+        return None
 
 
 ASSIGN_OPS = {"=", "+=", "-=", "*=", "/=", "%=", "<<=", ">>=", "&=", "|=", "^="}
